@@ -28,5 +28,6 @@ func seeded() []Case {
 		{IDL: s, Root: rs, Paths: h(), AP: [][][]string{}, Op: "json"},
 		{IDL: p, Root: rp, Paths: h("$.self.self"), AP: [][][]string{{{"f8", "f8"}}}, Op: "getpath", GP: vl.Hex("$.self.self"), GPAP: []string{"f8", "f8"}, GPTd: true},
 		{IDL: s, Root: rs, Paths: h("$.*"), AP: [][][]string{{{"F*"}}}, Op: "getpath", GP: vl.Hex("$.s.a"), GPAP: []string{"f4", "f1"}},
+		{IDL: s, Root: rs, Black: true, Paths: h("$.l[*]"), AP: [][][]string{{{"f2", "*"}}}, Op: "getpath", GP: vl.Hex("$.l[3]"), GPAP: []string{"f2", "i3"}},
 	}
 }
